@@ -381,6 +381,79 @@ pub fn run(ctx: &Ctx) -> i32 {
             },
         }
     }
+    // across positions: the same refused request at two places of one source file, through the real compiler (whose spans
+    // are byte positions; the in-process token printer has none). The diagnostics must be word for word the same
+    {
+        let so = engine::build_proc_macro();
+        match so {
+            Err(e) => rep.inconclusive.push(e.0),
+            Ok(so) => {
+                let k = ctx.scale(160, 1200);
+                let mut reqs: Vec<String> = Vec::new();
+                for dna in check::draw_values(ctx.seed, 0xC16D, k * 3, 420) {
+                    if reqs.len() >= k {
+                        break;
+                    }
+                    let mut d = Dna::new(&dna);
+                    let op = 1 + d.pick(faults::N_OPS);
+                    let cfg = faults::cfg_for(op, &mut d);
+                    let mut spec = gen::build(&mut d, &cfg).spec;
+                    if faults::apply(op, &mut spec, &mut d).is_some() {
+                        reqs.push(spec.render_def());
+                    }
+                }
+                let dir = engine::work_dir("C16-pos");
+                let results: Vec<(usize, Option<String>)> = reqs
+                    .par_iter()
+                    .enumerate()
+                    .map(|(i, def)| {
+                        let pad = "// padding that moves every byte position of the second copy\n".repeat(1 + i % 7);
+                        let src = format!("#![allow(warnings)]\nmod prelude {{}}\nmod a {{\nuse educe::Educe;\n{def}}}\n{pad}mod b {{\nuse educe::Educe;\n{def}}}\nfn main() {{}}\n");
+                        let split = src.find("mod b {").map(|p| src[..p].lines().count()).unwrap_or(0);
+                        let p = dir.join(format!("p{i}.rs"));
+                        std::fs::write(&p, &src).unwrap();
+                        let r = engine::rustc_compile(&p, &dir.join(format!("p{i}")), &so, &["--emit=metadata"]);
+                        let _ = std::fs::remove_file(&p);
+                        if r.crashed.is_some() {
+                            return (i, None);
+                        }
+                        let mut a: Vec<&str> = r.diags.iter().filter(|d| d.level == "error" && d.line > 0 && d.line <= split).map(|d| d.message.as_str()).collect();
+                        let mut b: Vec<&str> = r.diags.iter().filter(|d| d.level == "error" && d.line > split).map(|d| d.message.as_str()).collect();
+                        a.sort();
+                        b.sort();
+                        if a != b {
+                            let only_a: Vec<&&str> = a.iter().filter(|m| !b.contains(m)).collect();
+                            let only_b: Vec<&&str> = b.iter().filter(|m| !a.contains(m)).collect();
+                            (i, Some(format!("first copy only: {:?} / second copy only: {:?}", only_a, only_b)))
+                        } else {
+                            (i, Some(String::new()))
+                        }
+                    })
+                    .collect();
+                let mut reported = 0;
+                for (i, r) in results {
+                    match r {
+                        None => rep.inconclusive.push("rustc crashed in the position lane".into()),
+                        Some(m) if m.is_empty() => rep.count("cross_position_comparisons", 1),
+                        Some(m) => {
+                            rep.count("cross_position_comparisons", 1);
+                            if reported < 5 {
+                                reported += 1;
+                                rep.violations.push(Failure {
+                                    msg: format!("the same refused request gets different diagnostics at different places of one file: {}", m.chars().take(500).collect::<String>()),
+                                    dna: vec![],
+                                    variant: "cross-position".into(),
+                                    source: reqs[i].clone(),
+                                    unit_body: None,
+                                });
+                            }
+                        },
+                    }
+                }
+                check::clean_work("C16-pos");
+            },
+        }
+    }
     // across parsers: syn's `full` feature is unified over the user's whole build graph, so the same educe with the same
     // educe features meets a syn that parses `{ .. }`, tuples, arrays as Expr::Block/Tuple/Array in one build and as
     // Expr::Verbatim in another. Whatever both builds accept must expand to the same tokens
